@@ -230,7 +230,15 @@ func (t trie) String() string {
 	sort.Strings(keys)
 	var sb strings.Builder
 	for _, k := range keys {
-		fmt.Fprintf(&sb, "%s self=%v total=%v; ", strings.ReplaceAll(k, sep, ">"), t[k].Self, t[k].Total)
+		if sb.Len() > 600 {
+			fmt.Fprintf(&sb, "… (%d nodes)", len(keys))
+			break
+		}
+		name := k
+		if len(name) > 120 {
+			name = fmt.Sprintf("%s…(depth %d)", name[:60], strings.Count(name, sep)+1)
+		}
+		fmt.Fprintf(&sb, "%s self=%v total=%v; ", strings.ReplaceAll(name, sep, ">"), t[k].Self, t[k].Total)
 	}
 	return sb.String()
 }
